@@ -6,6 +6,8 @@ Import ListNotations.
 Require Import Verif.Foreign.NameEscape Verif.Foreign.NameEscapeProps Verif.Foreign.Tables.
 Require Import Verif.Foreign.ImportSpec Verif.Foreign.ImportProps Verif.Foreign.ImportRun Verif.Foreign.ImportTheorems.
 Require Import Verif.Foreign.XsdSpec Verif.Foreign.XsdProps Verif.Foreign.EndpointSpec Verif.Foreign.EndpointProps.
+Require Import Verif.Foreign.TypeFormatProps Verif.Foreign.ImportDeterm.
+Require Import Verif.Foreign.ResponseSpec Verif.Foreign.ResponseProps Verif.Foreign.ResponseTheorems.
 
 (* --- safe_name_valid_and_faithful, over ALL byte strings, for the replacement table of the current source --- *)
 Theorem C11_safe_name_is_a_Name : forall s, name_re (safe_name_cur s) = true.
@@ -194,18 +196,50 @@ Print Assumptions C11_xsd_optional_array_refuted.
 
 (* ---------------- endpoints: the parameters of every path x method (Foreign/EndpointSpec.v) ---------------- *)
 (* an operation's own parameters and the path-level ones it does not override (by name) each show up in the list of
-   their location with the kind of their type, optional iff not required (path parameters never); the body
-   parameter is there *)
+   their location with the kind of their type, optional iff not required (path parameters never) - provided no
+   body parameter takes their name (the body parameters live in the same name-keyed map) *)
 Theorem C11_import_complete_endpoints : forall e p,
   NoDup (map q_name (e_common e)) -> NoDup (map q_name (e_own e)) ->
   (In p (e_own e) \/ (In p (e_common e) /\ ~ In (q_name p) (map q_name (e_own e)))) ->
+  ~ In (q_name p) (map ekey (body_entries safe_name_cur e)) ->
   let pr := snd (endpoint_proj safe_name_cur unesc_c map_type_c native_c e) in
   (q_in p = "query"%string -> In (pfield unesc_c map_type_c native_c (negb (q_required p)) p) (ep_query pr))
   /\ (q_in p = "path"%string -> In (pfield unesc_c map_type_c native_c false p) (ep_url pr))
-  /\ (q_in p = "header"%string -> In (pfield unesc_c map_type_c native_c (negb (q_required p)) p) (ep_header pr))
-  /\ (forall b, e_body e = Some b -> ep_body pr = [unesc_c (safe_name_cur b)]).
+  /\ (q_in p = "header"%string -> In (pfield unesc_c map_type_c native_c (negb (q_required p)) p) (ep_header pr)).
 Proof. exact (import_complete_endpoints safe_name_cur unesc_c map_type_c native_c). Qed.
 Print Assumptions C11_import_complete_endpoints.
+
+(* REQUEST MEDIA TYPES: every media type the body can be sent in has its body parameter of the body's type (with
+   that media type in `mediatype`), provided the names buildRequests derives from the media types are distinct *)
+Theorem C11_import_complete_bodies_partial : forall e b mt,
+  e_body e = Some b -> NoDup (map ekey (body_entries safe_name_cur e)) -> In mt (e_consumes e) ->
+  In (unesc_c (safe_name_cur b), mt) (ep_body (snd (endpoint_proj safe_name_cur unesc_c map_type_c native_c e))).
+Proof. exact (import_complete_bodies safe_name_cur unesc_c map_type_c native_c). Qed.
+Print Assumptions C11_import_complete_bodies_partial.
+
+(* with a single media type there is nothing to be distinct from *)
+Theorem C11_import_complete_single_body : forall e b mt,
+  e_body e = Some b -> e_consumes e = [mt] ->
+  let pr := snd (endpoint_proj safe_name_cur unesc_c map_type_c native_c e) in
+  ep_body pr <> [] /\ In (unesc_c (safe_name_cur b), mt) (ep_body pr).
+Proof. exact (import_complete_single_body safe_name_cur unesc_c map_type_c native_c). Qed.
+Print Assumptions C11_import_complete_single_body.
+
+(* ... and without distinct names it is false: application/a+b and application/a.b both become ApplicationAB, one
+   body parameter replaces the other (replayed on the real code: known finding) *)
+Theorem C11_body_media_name_collision_refuted :
+  let e := mke (of_string "/pets") "POST" [] [] (Some (of_string "Pet"))
+               [of_string "application/a+b"; of_string "application/a.b"] in
+  ep_body (snd (endpoint_proj (fun s => s) (fun s => s) (fun _ _ => []) (fun _ => None) e))
+  = [(of_string "Pet", of_string "application/a.b")].
+Proof. exact body_media_name_collision_refuted. Qed.
+Print Assumptions C11_body_media_name_collision_refuted.
+
+Theorem C11_import_sound_bodies : forall e r m,
+  In (r, m) (ep_body (snd (endpoint_proj safe_name_cur unesc_c map_type_c native_c e))) ->
+  exists b, e_body e = Some b /\ r = unesc_c (safe_name_cur b) /\ In m (e_consumes e).
+Proof. exact (import_sound_bodies safe_name_cur unesc_c map_type_c native_c). Qed.
+Print Assumptions C11_import_sound_bodies.
 
 Theorem C11_import_sound_endpoints : forall e k f,
   let pr := snd (endpoint_proj safe_name_cur unesc_c map_type_c native_c e) in
@@ -226,3 +260,198 @@ Theorem C11_parameters_shape_current : List.length Verif.Gen.ForeignTables.param
   /\ nth_error Verif.Gen.ForeignTables.params_shape 5 = Some "res := ParamSet{}"%string.
 Proof. rewrite params_shape_ok. split; reflexivity. Qed.
 Print Assumptions C11_parameters_shape_current.
+
+(* the request side of the decisions: buildRequests / fieldForMediaType / buildRequestBodyString (which SORTS the
+   body parameters by name before writing them), cleanMediaType, ToCamel *)
+Theorem C11_request_shapes_current :
+  List.length Verif.Gen.ForeignTables.requests_shape = 6%nat
+  /\ List.length Verif.Gen.ForeignTables.media_field_shape = 6%nat
+  /\ List.length Verif.Gen.ForeignTables.body_string_shape = 3%nat
+  /\ List.length Verif.Gen.ForeignTables.clean_media_shape = 1%nat
+  /\ List.length Verif.Gen.ForeignTables.to_camel_shape = 4%nat.
+Proof.
+  rewrite requests_shape_ok, media_field_shape_ok, body_string_shape_ok, clean_media_shape_ok, to_camel_shape_ok.
+  repeat split; reflexivity.
+Qed.
+Print Assumptions C11_request_shapes_current.
+
+(* ---------------- OpenAPI type x format (Foreign/TypeFormatProps.v), for ALL format strings ---------------- *)
+(* the fallback: a format the type's row does not list gives exactly what the bare type gives *)
+Theorem C11_unlisted_format_is_bare_type : forall ty fm fmt,
+  sassoc (slower ty) Verif.Gen.ForeignTables.oas_type_table = Some fm -> sassoc (slower fmt) fm = None ->
+  prim_word map_type_c ty fmt = prim_word map_type_c ty "".
+Proof. exact unlisted_format_is_bare_type. Qed.
+Print Assumptions C11_unlisted_format_is_bare_type.
+
+(* every OpenAPI type with EVERY format (listed for it, listed for another type, not listed at all) compiles - as a
+   property, an array item or a parameter - to a primitive of the type's kind; the one exception is a word that is
+   Sysl's builtin type name uuid (string + uuid), read by the compiler as a reference to `uuid`: never a reference
+   named like the OpenAPI type *)
+Theorem C11_every_format_is_a_primitive : forall ty fmt opt seq,
+  In ty oas_types ->
+  let f := word unesc_c native_c (prim_word map_type_c ty fmt) opt seq in
+  f_opt f = opt /\ f_seq f = seq /\
+  (In (f_kind f) (allowed_kinds ty) \/ (ty = "string"%string /\ f_kind f = "REF"%string /\ f_ref f = uuid_word)).
+Proof. exact format_field_kind. Qed.
+Print Assumptions C11_every_format_is_a_primitive.
+
+(* top-level definitions (default arm of loadTypeSchema): a definition of a type the table knows, with any format,
+   is an alias of the mapped builtin, of the type's kind *)
+Theorem C11_prim_definition_is_alias : forall doc n ty fmt fm,
+  doc_ok safe_name_cur is_builtin_c tname_c map_type_c doc -> NoDup (map fst (import_c doc)) ->
+  In (n, OPrim ty fmt) doc -> sassoc (slower ty) Verif.Gen.ForeignTables.oas_type_table = Some fm ->
+  lookup (unesc_c (safe_name_cur n)) (import_c doc)
+  = Some (TAlias (word unesc_c native_c (map_type_c ty fmt) false false))
+  /\ word_ok (slower ty) (map_type_c ty fmt) = true.
+Proof. exact prim_definition_is_alias. Qed.
+Print Assumptions C11_prim_definition_is_alias.
+
+(* boolean is such a type after fixes/C11-5 ... *)
+Theorem C11_boolean_definition_is_bool :
+  import_c [(of_string "Flag", OPrim "boolean" ""); (of_string "Cnt", OPrim "integer" "uint64")]
+  = [(of_string "Cnt", TAlias (mkf "INT" 0 [] false false)); (of_string "Flag", TAlias (mkf "BOOL" 0 [] false false))].
+Proof. exact boolean_definition_is_bool. Qed.
+Print Assumptions C11_boolean_definition_is_bool.
+
+(* ... and was a string alias under another name before (the defect, reproduced by the model without the row) *)
+Theorem C11_boolean_definition_before_fix_refuted :
+  import_oas2 safe_name_cur is_builtin_c tname_c fname_c unesc_c map_type_before_fix native_c
+    [(of_string "Flag", OPrim "boolean" "")]
+  = [(of_string "EXTERNAL_Flag", TAlias (mkf "STRING" 0 [] false false))].
+Proof. exact boolean_definition_before_fix_refuted. Qed.
+Print Assumptions C11_boolean_definition_before_fix_refuted.
+
+(* the table's shape and its callers in the CURRENT source: lower-casing, the fallback through the bare type, an
+   unknown type handed back; typeNameFromSchemaRef answers boolean before the table; the default arm keeps the
+   table's answer only if it is a builtin type name *)
+Theorem C11_type_table_shape_current :
+  nth_error Verif.Gen.ForeignTables.map_type_shape 3
+  = Some "if formatMap, ok := conversions[typeName]; ok { if result, ok := formatMap[format]; ok { return result } logger.Debugf(""Unhandled (type, format) -> (%s, %s), ignoring...\n"", typeName, format) return mapOpenAPITypeAndFormatToType(typeName, """", logger) }"%string
+  /\ List.length Verif.Gen.ForeignTables.map_type_shape = 5%nat
+  /\ List.length Verif.Gen.ForeignTables.type_name_shape = 5%nat
+  /\ List.length Verif.Gen.ForeignTables.prim_def_shape = 6%nat
+  /\ forallb (fun row => has_bare (snd row)) Verif.Gen.ForeignTables.oas_type_table = true.
+Proof.
+  rewrite map_type_shape_ok, type_name_shape_ok, prim_def_shape_ok.
+  repeat split; reflexivity.
+Qed.
+Print Assumptions C11_type_table_shape_current.
+
+(* XSD builtins: the word findType / makeXsdBuiltinType give is always a native primitive (or the builtin's own
+   name, when that is one of Sysl's builtin type names the grammar has no native type for) *)
+Theorem C11_xsd_builtin_is_primitive : forall p,
+  native_c (xprim_word_c p) <> None \/ (is_builtin_c (of_string p) = true /\ xprim_word_c p = of_string p).
+Proof. exact xsd_builtin_is_primitive. Qed.
+Print Assumptions C11_xsd_builtin_is_primitive.
+
+(* determinism of the endpoint side (after fixes/C11-7): paths and methods are visited in a fixed order and a
+   response type whose name another method of the path has taken is shared (same content) or renamed with the
+   method; query parameters (after fixes/C11-6): only the lexer's native type words are written bare *)
+Theorem C11_endpoint_order_and_query_shape_current :
+  Verif.Gen.ForeignTables.endpoint_loops =
+    ["convertSpec: for _, path := range utils.OrderedKeys(pathItems)";
+     "buildEndpoint: for _, method := range methodDisplayOrder"]%string
+  /\ List.length Verif.Gen.ForeignTables.resp_clash_shape = 1%nat
+  /\ List.length Verif.Gen.ForeignTables.query_string_shape = 3%nat
+  /\ Verif.Gen.ForeignTables.importer_native_types = Verif.Gen.ForeignTables.lexer_native_types
+  /\ forallb (fun k => smem k Verif.Gen.ForeignTables.lexer_native_types) (map fst native_table) = true
+  /\ forallb (fun k => smem k (map fst native_table)) Verif.Gen.ForeignTables.lexer_native_types = true.
+Proof.
+  rewrite resp_clash_shape_ok, query_string_shape_ok.
+  repeat split; reflexivity.
+Qed.
+Print Assumptions C11_endpoint_order_and_query_shape_current.
+
+(* ---------------- "running the import again gives identical text" ---------------- *)
+(* the request line: whatever the order in which Go ranges over the request body's media types, the body parameters
+   are written in the same order (sorted by name), provided their names are distinct and no other parameter's *)
+Theorem C11_body_text_deterministic : forall e e',
+  e_path e' = e_path e -> e_method e' = e_method e -> e_common e' = e_common e -> e_own e' = e_own e ->
+  e_body e' = e_body e -> Permutation (e_consumes e) (e_consumes e') ->
+  NoDup (map ekey (body_entries safe_name_cur e)) ->
+  (forall x, In x (body_entries safe_name_cur e) -> ~ In (ekey x) (map q_name (extend (e_common e) (e_own e)))) ->
+  body_text_order safe_name_cur e = body_text_order safe_name_cur e'.
+Proof. exact (body_text_deterministic safe_name_cur). Qed.
+Print Assumptions C11_body_text_deterministic.
+
+(* every `range` over a map in pkg/importer whose shape alone does not make it order-independent is one of the
+   reviewed ones (Foreign/ImportDeterm.v: each with the theorem or the repetition that covers it); none untyped *)
+Theorem C11_importer_map_ranges_reviewed :
+  subset importer_unsafe importer_reviewed = true /\ subset importer_reviewed importer_unsafe = true
+  /\ forallb (fun r => negb (in_importer r && Verif.Determ.MapOrder.class_eqb (Verif.Determ.MapOrder.mr_class r) Verif.Determ.MapOrder.Unknown))
+             Verif.Gen.MapRanges.ranges = true.
+Proof. split; [exact (proj1 importer_unsafe_ranges_reviewed)|split; [exact (proj2 importer_unsafe_ranges_reviewed)|exact importer_ranges_all_typed]]. Qed.
+Print Assumptions C11_importer_map_ranges_reviewed.
+
+(* ---------------- responses (Foreign/ResponseSpec.v): import_complete for the return lines and the types the
+   importer generates for responses that come in several media types ---------------- *)
+(* every response of every operation (methods GET PUT POST DELETE PATCH) has a line in the endpoint's list of
+   returns that says what `carried` says: the status text alone (no schema); text <: type [mediatype] (one media
+   type); or text <: T where T - named by path and status code, or with the method in front when another method of
+   the path took that name - is in the final type list with one field per media type *)
+Theorem C11_import_complete_responses : forall doc ops op r,
+  In op ops -> In (o_method op) method_rank -> In r (o_resps op) ->
+  exists lines line, In (op_key op, lines) (import_returns_c doc ops) /\ In line lines
+    /\ carried safe_name_cur tname_c map_type_c resp_prefix_c op r
+         (full_types safe_name_cur is_builtin_c tname_c map_type_c resp_prefix_c doc ops) line.
+Proof. exact import_complete_responses_current. Qed.
+Print Assumptions C11_import_complete_responses.
+
+(* a generated type is in the compiled module, as a tuple of its fields ... *)
+Theorem C11_generated_response_type_compiled : forall doc ops n fs,
+  In (IStandard n fs) (full_types safe_name_cur is_builtin_c tname_c map_type_c resp_prefix_c doc ops) ->
+  In (unesc_c (tname_c n), TTuple (map (cfield fname_c unesc_c native_c) fs)) (import_full_c doc ops).
+Proof. exact generated_type_compiled_current. Qed.
+Print Assumptions C11_generated_response_type_compiled.
+
+(* ... one per media type, of the response's type: kind / reference of its type word, a sequence iff the response
+   is an array, not optional *)
+Theorem C11_generated_response_type_fields : forall r ty mts mt,
+  In mt mts ->
+  In (cfield fname_c unesc_c native_c (rfield safe_name_cur map_type_c true r ty mt))
+     (map (cfield fname_c unesc_c native_c) (sort_by if_name (map (rfield safe_name_cur map_type_c true r ty) mts)))
+  /\ snd (cfield fname_c unesc_c native_c (rfield safe_name_cur map_type_c true r ty mt))
+     = word unesc_c native_c (type_word safe_name_cur map_type_c ty) false (r_array r).
+Proof. exact (generated_type_field_per_media safe_name_cur fname_c unesc_c map_type_c native_c). Qed.
+Print Assumptions C11_generated_response_type_fields.
+
+(* the definitions survive the endpoint phase, and without a typed response in several media types that phase adds
+   no type: the whole import is the import of the definitions (C11_import_complete / _sound / _deterministic) *)
+Theorem C11_definitions_kept : forall doc ops t,
+  In t (loaded_types safe_name_cur is_builtin_c tname_c map_type_c doc) ->
+  In t (full_types safe_name_cur is_builtin_c tname_c map_type_c resp_prefix_c doc ops).
+Proof. exact (definitions_kept safe_name_cur is_builtin_c tname_c map_type_c resp_prefix_c). Qed.
+Print Assumptions C11_definitions_kept.
+
+Theorem C11_responses_conservative : forall doc ops,
+  (forall op, In op ops -> no_generated op) -> import_full_c doc ops = import_c doc.
+Proof. exact responses_conservative_current. Qed.
+Print Assumptions C11_responses_conservative.
+
+Theorem C11_response_shapes_current :
+  List.length Verif.Gen.ForeignTables.responses_shape = 16%nat
+  /\ nth_error Verif.Gen.ForeignTables.responses_shape 0 = Some "supportedCode := regexp.MustCompile(""^ok|error|[1-5][0-9][0-9]$"")"%string
+  /\ nth_error Verif.Gen.ForeignTables.responses_shape 1 = Some "errType := regexp.MustCompile(""^Error|error$"")"%string
+  /\ nth_error Verif.Gen.ForeignTables.responses_shape 2
+     = Some "typePrefix := getSyslSafeURI(convertToSyslSafe(cleanEndpointPath(path))) + ""_"""%string
+  /\ List.length Verif.Gen.ForeignTables.write_responses_shape = 1%nat
+  /\ List.length Verif.Gen.ForeignTables.safe_uri_shape = 4%nat
+  /\ List.length Verif.Gen.ForeignTables.clean_path_shape = 1%nat
+  /\ List.length Verif.Gen.ForeignTables.to_sysl_safe_shape = 5%nat.
+Proof.
+  rewrite responses_shape_ok, write_responses_shape_ok, safe_uri_shape_ok, clean_path_shape_ok, to_sysl_safe_shape_ok.
+  repeat split; reflexivity.
+Qed.
+Print Assumptions C11_response_shapes_current.
+
+(* ---------------- NAME ESCAPING of type names, for ALL byte strings ---------------- *)
+(* the name a definition is written under (safe name, "_" in front when it starts like a builtin type) matches the
+   lexer's Name rule - as does the EXTERNAL_ name of the string alias an empty / unknown definition becomes. (A name
+   spelled like a keyword still matches the rule but is read as the keyword: known finding type-keyword.) *)
+Theorem C11_type_name_is_a_Name : forall s, name_re (tname_c (safe_name_cur s)) = true.
+Proof. exact type_name_is_a_Name. Qed.
+Print Assumptions C11_type_name_is_a_Name.
+
+Theorem C11_external_alias_name_is_a_Name : forall s, name_re (external_prefix ++ safe_name_cur s) = true.
+Proof. exact external_alias_name_is_a_Name. Qed.
+Print Assumptions C11_external_alias_name_is_a_Name.
